@@ -591,7 +591,25 @@ def s9_boundary_episodes(r, what):
     (classes 0..1, 2..15, 16..127, 128..255, 256..511, 512..), as first, middle and last entry,
     starting in the first four words or not; always queried through Select9"""
     eps = []
-    for S in (2, 15, 16, 17, 127, 128, 129, 255, 256, 257, 511, 512, 513):
+
+    def dense_tail_ranks(ep, v):
+        """every rank in the last 70 of each inventory entry (512 ones) and every 7th rank: the last blocks of a span
+        are where the padding of the 16-bit counters is read"""
+        m = ones_of(v)
+        rs = set(range(0, m, 7))
+        for k in range(1, m // 512 + 2):
+            rs.update(x for x in range(512 * k - 70, 512 * k + 2) if 0 <= x < m)
+        ep["ops"].append({"op": "select", "rs": sorted(rs)[:6000]})
+        return ep
+
+    # regular vectors (one bit in 16 / 32 / 48, shifted): spans of 16, 32, 48 blocks, multiples of the eight
+    # counters that are searched at a time
+    for stride in (16, 32, 48):
+        for shift in (0, 70, 200, 450):
+            n = r.choice([3 * 8192 + shift + 160, 1 << 16])
+            v = from_positions(n, list(range(shift, n, stride)))
+            eps.append(dense_tail_ranks(episode(v, {"t": "clean"}, [[R9, S9]], r, what, src="s9span"), v))
+    for S in (2, 15, 16, 17, 32, 48, 64, 96, 112, 127, 128, 129, 255, 256, 257, 511, 512, 513):
         for p in (0, 256 * r.choice([1, 3, 5])):
             for shape in ("first", "middle"):
                 runs, off = [], p
@@ -605,8 +623,8 @@ def s9_boundary_episodes(r, what):
                 n = runs[-1][1] + r.choice([0, 1, 64, 130, 200])
                 v = mkvec(n, runs)
                 st = [r.choice([[R9, S9], [R9, S9], [ANB, R9, S9], [R9, S9, SZAC(12, 3)]])]
-                eps.append(episode(v, {"t": "clean"} if r.random() < 0.6 else r.choice(tails(r)), st, r, what,
-                                   src="s9span"))
+                eps.append(dense_tail_ranks(episode(v, {"t": "clean"} if r.random() < 0.6 else r.choice(tails(r)), st, r,
+                                                    what, src="s9span"), v))
         # the same span (the 256-bit groups of two consecutive inventory entries differ by exactly S) reached with
         # entries that do not start their group: the first one sits at offset d of its group, the next entry's
         # first one at offset e of group +S, and the entry's last one right before it, so that offsets inside the
